@@ -396,7 +396,19 @@ def grid_case(kind, defaults):
     if kind == "pair":
       tab = pt.LAMMPS_PairTabulation([], c.cutoff, c.nr)
       rs = list(pt._r_value_iterator(tab)) if not defaults else []
-      return dict(c=tuple(c), dr=tab.dr, rs=rs)
+      rows2 = None
+      if not defaults:
+        # the table actually written, twice from one object: the same number of rows on the same grid both times
+        import io as _io
+        from atsim.potentials import Potential
+        from readers import pairtables
+        g = pt.GULP_PairTabulation([Potential("A", "B", core.uf("U"))], c.cutoff, c.nr)
+        rows2 = []
+        for _i in range(2):
+          out = _io.StringIO()
+          g.write(out)
+          rows2.append([r for (_e, r) in pairtables.read_gulp_spline(out.getvalue())[0]["rows"]])
+      return dict(c=tuple(c), dr=tab.dr, rs=rs, rows2=rows2)
     tab = et.SetFL_EAMTabulation([], [], c.cutoff, c.nr, c.cutoff_rho, c.nrho)
     rs = list(pt._r_value_iterator(tab)) if not defaults else []
     rhos = list(et._rho_value_iterator(tab)) if not defaults else []
@@ -430,6 +442,12 @@ def grid_case(kind, defaults):
     for i, r in enumerate(v["rs"]):
       vcs.append(VC("r[%d]" % i, eq_formula(term(r), rv(i) * cu / rv(NR - 1)), info=dict(key="r-grid")))
     vcs.append(VC("ends at cutoff", eq_formula(term(v["rs"][-1]), cu), info=dict(key="r-grid-end")))
+    for wi, rows in enumerate(v.get("rows2") or []):
+      if len(rows) != NR:
+        raise Structural("rows-written", "the GULP table written %s from one tabulation object has %d rows, nr = %d" % (["first", "second"][wi], len(rows), NR))
+      for i, r in enumerate(rows):
+        t = path.term_of_number(r)
+        vcs.append(VC("written[%d].r[%d]" % (wi, i), eq_formula(t if t is not None else rv(r), rv(i) * cu / rv(NR - 1)), info=dict(key="written-grid")))
     if kind != "pair":
       vcs.append(VC("cutoff_rho passed", eq_formula(term(c[2]), cr), info=dict(key="cutoff-rho-pass")))
       vcs.append(VC("drho", eq_formula(term(v["drho"]), cr / rv(NR + 1)), info=dict(key="drho")))
@@ -454,6 +472,17 @@ def grid_case(kind, defaults):
           bad.append("density grid for nrho=%d cutoff_rho=%r is %r" % (NR + 2, c1, rh))
         if abs(tab.drho - c1 / (NR + 1)) > 1e-15 * c1:
           bad.append("drho=%r" % tab.drho)
+      if kind == "pair":
+        import io as _io
+        from atsim.potentials import Potential
+        from readers import pairtables
+        g = pt.GULP_PairTabulation([Potential("A", "B", lambda r: 1.0 + r)], c0, NR)
+        for wi in range(2):
+          out = _io.StringIO()
+          g.write(out)
+          nrow = len(pairtables.read_gulp_spline(out.getvalue())[0]["rows"])
+          if nrow != NR:
+            bad.append("the GULP table written %s from one tabulation object has %d rows, nr = %d" % (["first", "second"][wi], nrow, NR))
       rs = list(pt._r_value_iterator(tab))
       if len(rs) != NR or any(abs(x - i * c0 / (NR - 1)) > 1e-12 * c0 for i, x in enumerate(rs)):
         bad.append("separation grid for nr=%d cutoff=%r is %r" % (NR, c0, rs))
